@@ -1,1 +1,2 @@
 import SV.Props.C10
+import SV.Props.C01
